@@ -106,6 +106,8 @@ class ExprMixin:
             def elem(i, base=base, extra=extra, n=n):
                 return self.merge_values([(i < n, base.elem(i))] + [(i == n + k, x) for k, x in enumerate(extra)])
             return SeqV(n + len(extra), elem, "tuple")
+        except StarMix as sm:
+            return self.seq_of_segments(sm.out, "tuple")
 
     def e_List(self, node, env):
         try:
@@ -122,6 +124,8 @@ class ExprMixin:
                 alts = [(i < n, base.elem(i))] + [(i == n + k, x) for k, x in enumerate(extra)]
                 return self.merge_values(alts)
             return SeqV(n + len(extra), elem)
+        except StarMix as sm:
+            return self.seq_of_segments(sm.out)
 
     def eval_seq(self, elts, env):
         out = []
@@ -142,8 +146,27 @@ class ExprMixin:
             # [*seq, a, b]: a symbolic sequence followed by concrete items
             if isinstance(out[0], tuple) and out[0][0] == "*" and isinstance(out[0][1], SeqV) and not any(isinstance(x, tuple) and x and x[0] == "*" for x in out[1:]):
                 raise StarThen(out[0][1], out[1:])
+            if all(not (isinstance(x, tuple) and x and x[0] == "*") or isinstance(x[1], SeqV) for x in out):
+                raise StarMix(out)
             raise Unsupported("starred symbolic sequence inside display")
         return out
+
+    def seq_of_segments(self, out, kind="list"):
+        """[a, *s, b, *t, ...]: the concatenation, as a sequence of symbolic length (segment k starts at the sum of the lengths before it)"""
+        segs = []          # (start term, length term, element function)
+        start = z3.IntVal(0)
+        for x in out:
+            if isinstance(x, tuple) and x and x[0] == "*":
+                sv = x[1]
+                segs.append((start, sv.n, (lambda j, sv=sv: sv.elem(j))))
+                start = z3.simplify(start + sv.n)
+            else:
+                segs.append((start, z3.IntVal(1), (lambda j, x=x: x)))
+                start = z3.simplify(start + 1)
+
+        def elem(i, segs=segs):
+            return self.merge_values([(z3.And(i >= st, i < st + ln), f(i - st)) for st, ln, f in segs])
+        return SeqV(start, elem, kind) if kind != "list" else SeqV(start, elem)
 
     def e_Set(self, node, env):
         items = [self.eval(e, env) for e in node.elts]
@@ -730,6 +753,11 @@ class ExprMixin:
         if d.forced is None:
             d.forced = d.force()
         return d.forced
+
+
+class StarMix(Exception):
+    def __init__(self, out):
+        self.out = out
 
 
 class StarOnly(Exception):
